@@ -134,6 +134,23 @@ func genC07(g *Gen, tier string, w *bufio.Writer) {
 			fmt.Fprintf(w, "fuzz %s 1 0 SQL %s\n", m, hex.EncodeToString([]byte(q)))
 		}
 	}
+	// interval arguments of the table valued functions in every unit and around the unit boundaries (sub-millisecond,
+	// sub-microsecond): rounding code divides by them
+	for _, unit := range []string{"NANOSECOND", "NANOSECONDS", "MICROSECOND", "MICROSECONDS", "MILLISECOND", "MILLISECONDS", "SECOND", "MINUTE", "HOUR", "DAY"} {
+		for _, n := range []string{"1", "500", "999", "1000", "1001", "-1", "0"} {
+			iv := "INTERVAL " + n + " " + unit
+			for _, q := range []string{
+				"SELECT id FROM max_diff_watermark(source => TABLE(j.json), max_diff => INTERVAL 1 SECOND, time_field => DESCRIPTOR(t), resolution => " + iv + ") q",
+				"SELECT id FROM max_diff_watermark(source => TABLE(j.json), max_diff => " + iv + ", time_field => DESCRIPTOR(t)) q",
+				"SELECT id FROM tumble(source => TABLE(j.json), window_length => " + iv + ", time_field => DESCRIPTOR(t)) q",
+				"SELECT id FROM tumble(source => TABLE(j.json), window_length => INTERVAL 1 SECOND, time_field => DESCRIPTOR(t), offset => " + iv + ") q",
+			} {
+				if tier == "thorough" || g.Chance(1, 3) {
+					fmt.Fprintf(w, "fuzz %s 1 0 SQL %s\n", Pick(g, []string{"csv", "json"}), hex.EncodeToString([]byte(q)))
+				}
+			}
+		}
+	}
 	for k := range c07DriftJSON {
 		for _, q := range []string{"SELECT * FROM drift%d.json d", "SELECT id, tags, o, v, n, l, nest, s FROM drift%d.json d", "SELECT COUNT(*) FROM drift%d.json d",
 			"SELECT tags[0], o->k, v + 1, l[0], nest->a, upper(s) FROM drift%d.json d", "SELECT id FROM drift%d.json d ORDER BY id DESC LIMIT 2"} {
